@@ -207,6 +207,29 @@ def check_history(ctx, case):
             applied += 1
         except Exception as e:
             ctx.refusal('history.%s.%s' % (name, type(e).__name__))
+    # the digest the library *checks*: before anything is signed again, verify() must judge the signatures the
+    # transaction carries now against the digest of the transaction as it serialises now (a signature object that was
+    # created or verified for an earlier state must not be checked against the digest of that earlier state)
+    try:
+        pre = wire.Tx.parse(t.raw())
+        got_v = t.verify()
+    except Exception as e:
+        ctx.refusal('history.verify_before_resign.%s' % type(e).__name__)
+        pre = None
+    if pre is not None and len(pre.vin) == len(plan['inputs']):
+        verdicts = [interp.verify_input(pre, k, txplan.prevout(inp)['spk'], inp['value'])
+                    for k, inp in enumerate(plan['inputs'])]
+        if not any(why in ('unsatisfied locktime', 'unsatisfied sequence') for ok, why in verdicts):
+            want_v = all(ok for ok, why in verdicts)
+            ctx.klass('history.verify_before_resign.' + ('still_valid' if want_v else 'invalidated'))
+            if bool(got_v) != want_v:
+                bad = [k for k, (ok, why) in enumerate(verdicts) if not ok]
+                ctx.disc('history.verify_%s_on_%s:%s' % (bool(got_v), 'valid' if want_v else 'invalid',
+                                                        plan['inputs'][bad[0] if bad else 0]['kind']),
+                         'after %r without signing again: Transaction.verify() -> %r, but under the consensus digest of '
+                         'the transaction as it serialises now the inputs %r are invalid (%s)' %
+                         ([o['op'] for o in case['ops']], got_v, bad, [w for ok, w in verdicts if not ok][:2]), case)
+                return
     try:
         t.sign_and_update()
         raw = t.raw()
